@@ -10,6 +10,7 @@ See :py:class:`FrameSequence` for the main entry point.
 
 from __future__ import annotations
 
+import math
 from dataclasses import dataclass
 from typing import Any
 
@@ -533,14 +534,25 @@ class Chopper:
         npulses:
             Number of pulses to rotate the chopper for.
         """
-        tpulse = 1.0 / pulse_frequency
-        topen = disk_chopper.time_offset_open(pulse_frequency=pulse_frequency)
-        tclose = disk_chopper.time_offset_close(pulse_frequency=pulse_frequency)
-        offsets = (sc.arange('pulse', npulses) * tpulse).to(unit=topen.unit)
+        # Enumerate the rotations of the disk, not the pulses: every opening is
+        # listed exactly once, also when the chopper is slower than the source.
+        rotations_per_pulse = disk_chopper._source_phase_factor(pulse_frequency)
+        pulses_per_rotation = round(
+            max((pulse_frequency / abs(disk_chopper.frequency)).to(unit='').value, 1)
+        )
+        n_rotations = math.ceil(npulses * rotations_per_pulse / pulses_per_rotation)
+        if disk_chopper.is_clockwise:
+            open_edges, close_edges = disk_chopper.slit_begin, disk_chopper.slit_end
+        else:
+            open_edges, close_edges = disk_chopper.slit_end, disk_chopper.slit_begin
         return cls(
             distance=sc.norm(disk_chopper.axle_position),
-            time_open=(offsets + topen).flatten(to=topen.dim),
-            time_close=(offsets + tclose).flatten(to=tclose.dim),
+            time_open=disk_chopper.time_offset_angle_at_beam(
+                angle=open_edges, n_repetitions=n_rotations
+            ),
+            time_close=disk_chopper.time_offset_angle_at_beam(
+                angle=close_edges, n_repetitions=n_rotations
+            ),
         )
 
 
